@@ -20,6 +20,7 @@
 EXTENDS CssTok, Json
 
 CONSTANTS Classes, Contexts,
+          Alphabet,        \* input symbols explored (CssSym = all)
           RegularExtra,    \* extra characters admitted by the regular pattern (negative config; {} as coded)
           AngleGuard,      \* TRUE as coded: background-image rejects values containing '<' or '>'
           FontFix, BgFix,  \* FALSE as pinned; TRUE = proposed repairs (fixes/C05-*.diff)
@@ -241,7 +242,7 @@ Close ==
     /\ phase' = "closed"
     /\ UNCHANGED <<cls, ctx, acc, con, con1, raw>>
 
-Next == (\E c \in CssSym : Feed(c)) \/ Close
+Next == (\E c \in Alphabet : Feed(c)) \/ Close
 Spec == Init /\ [][Next]_vars
 
 -----------------------------------------------------------------------------
@@ -253,6 +254,27 @@ InnocuousOnReject == phase = "closed" /\ res.br = "" => res.ev = ""
 KnownSigs == {"FontFamily.QuotedSegment", "BackgroundImage.UrlDQ", "BackgroundImage.UrlSQ", "BackgroundImage.UrlBare",
               "StyleAttr.DoubleEscape"}
 OneDeclarationBut == phase = "closed" /\ res.br # "" /\ res.ev # "" => res.sig \in KnownSigs
+
+(* class table: single source of truth for the harness (code point ranges, inclusive); every other ASCII
+   character is its own symbol; an invalid byte is treated as U+FFFD (NA) *)
+CssClassRanges == <<
+   [sym |-> "CTL", lo |-> 0, hi |-> 8], [sym |-> "TAB", lo |-> 9, hi |-> 9], [sym |-> "LF", lo |-> 10, hi |-> 10],
+   [sym |-> "VT", lo |-> 11, hi |-> 11], [sym |-> "FF", lo |-> 12, hi |-> 12], [sym |-> "CR", lo |-> 13, hi |-> 13],
+   [sym |-> "CTL", lo |-> 14, hi |-> 31], [sym |-> "SP", lo |-> 32, hi |-> 32], [sym |-> "OP", lo |-> 36, hi |-> 36],
+   [sym |-> "PCT", lo |-> 37, hi |-> 37], [sym |-> "0", lo |-> 48, hi |-> 57], [sym |-> "OP", lo |-> 61, hi |-> 61],
+   [sym |-> "Z", lo |-> 65, hi |-> 75], [sym |-> "Z", lo |-> 77, hi |-> 81], [sym |-> "Z", lo |-> 84, hi |-> 84],
+   [sym |-> "Z", lo |-> 86, hi |-> 90], [sym |-> "OP", lo |-> 94, hi |-> 94], [sym |-> "OP", lo |-> 96, hi |-> 96],
+   [sym |-> "f", lo |-> 98, hi |-> 100], [sym |-> "f", lo |-> 102, hi |-> 102], [sym |-> "z", lo |-> 103, hi |-> 103],
+   [sym |-> "z", lo |-> 106, hi |-> 107], [sym |-> "z", lo |-> 110, hi |-> 110], [sym |-> "z", lo |-> 113, hi |-> 113],
+   [sym |-> "z", lo |-> 118, hi |-> 120], [sym |-> "z", lo |-> 122, hi |-> 122], [sym |-> "OP", lo |-> 124, hi |-> 124],
+   [sym |-> "OP", lo |-> 126, hi |-> 126], [sym |-> "CTL", lo |-> 127, hi |-> 127],
+   [sym |-> "NA", lo |-> 128, hi |-> 132], [sym |-> "UWS", lo |-> 133, hi |-> 133], [sym |-> "NA", lo |-> 134, hi |-> 159],
+   [sym |-> "UWS", lo |-> 160, hi |-> 160], [sym |-> "NA", lo |-> 161, hi |-> 5759], [sym |-> "UWS", lo |-> 5760, hi |-> 5760],
+   [sym |-> "NA", lo |-> 5761, hi |-> 8191], [sym |-> "UWS", lo |-> 8192, hi |-> 8202], [sym |-> "NA", lo |-> 8203, hi |-> 8231],
+   [sym |-> "UWS", lo |-> 8232, hi |-> 8233], [sym |-> "NA", lo |-> 8234, hi |-> 8238], [sym |-> "UWS", lo |-> 8239, hi |-> 8239],
+   [sym |-> "NA", lo |-> 8240, hi |-> 8286], [sym |-> "UWS", lo |-> 8287, hi |-> 8287], [sym |-> "NA", lo |-> 8288, hi |-> 12287],
+   [sym |-> "UWS", lo |-> 12288, hi |-> 12288], [sym |-> "NA", lo |-> 12289, hi |-> 55295], [sym |-> "NA", lo |-> 57344, hi |-> 1114111] >>
+EmitSyms == PrintT(<<"SYMS", ToJson([ranges |-> CssClassRanges, syms |-> CssSym])>>)
 
 View == vars
 Emit == IF EmitEdges
